@@ -41,10 +41,11 @@ type cfgB struct {
 	master   bool   // P1 is the master peer of the cycle (its loss cancels the sync)
 	eager    bool   // importer takes results as soon as some are ready (else: only when nothing else can move)
 	split    bool   // headers are scheduled in two batches (second one at the first import opportunity)
+	ticker   bool   // no extra wake signals: only fetchParts' own 100 ms ticker makes time pass
 }
 
 func (c cfgB) String() string {
-	return fmt.Sprintf("chain=%s window=%d maxfetch=%d p2=%s master=%v eager=%v split=%v", c.pattern, c.window, c.maxFetch, c.p2, c.master, c.eager, c.split)
+	return fmt.Sprintf("chain=%s window=%d maxfetch=%d p2=%s master=%v eager=%v split=%v ticker-only=%v", c.pattern, c.window, c.maxFetch, c.p2, c.master, c.eager, c.split, c.ticker)
 }
 
 // answer kinds of the designated peer (first = honest default)
@@ -125,13 +126,13 @@ type resultB struct {
 }
 
 type runB struct {
-	cfg   cfgB
-	ch    *chain
-	dl    *downloader.VerifDL
-	q     *downloader.VerifQueue
-	in    inboxB
-	sched []string
-	res   *resultB
+	cfg     cfgB
+	ch      *chain
+	dl      *downloader.VerifDL
+	q       *downloader.VerifQueue
+	in      inboxB
+	sched   []string
+	res     *resultB
 	fullObs bool // first-occurrence / replay mode: observe a dead state over 30 real ticker periods
 
 	step       int
@@ -147,9 +148,15 @@ type runB struct {
 	lastAnswer [][]*types.Transaction // P1's last answer packet
 	lastEvent  map[string]string      // peer -> class of the last packet / timer event concerning it
 	warped     map[string]int         // peer -> size of the request the clock just expired
+	lastSend   *sentB                 // packet whose effect is classified at the next quiescence
 	dmu        sync.Mutex
 	dropped    []string // peers dropped by the downloader (callback, loop goroutine)
 	masterGone string   // "" | disconnected | dropped
+}
+
+type sentB struct {
+	peer, class string
+	has         bool // a request of the peer was in flight when the packet was sent
 }
 
 const (
@@ -158,6 +165,13 @@ const (
 )
 
 func (r *runB) n() uint64 { return uint64(len(r.cfg.pattern)) }
+
+// poke makes the loop run a round now instead of at its next 100 ms tick.
+func (r *runB) poke() {
+	if !r.cfg.ticker {
+		r.dl.WakeBodies(true)
+	}
+}
 
 func (r *runB) ev(format string, a ...interface{}) {
 	r.res.events = append(r.res.events, fmt.Sprintf(format, a...))
@@ -266,13 +280,35 @@ func (r *runB) arrived(st downloader.VerifLoopState) bool {
 // its visible state is unchanged over stablePolls polls while it keeps being
 // woken.  Only a wait - nothing is concluded from how long it took.
 func (r *runB) settle() (downloader.VerifLoopState, bool, error) {
+	st, ret, err := r.settleRaw()
+	if s := r.lastSend; s != nil {
+		r.lastSend = nil
+		p := r.registered(st, s.peer)
+		_, pend := st.Pend[s.peer]
+		switch {
+		case p == nil:
+		case s.has && !p.Idle && !pend:
+			r.lastEvent[s.peer] = "a delivery of which nothing was accepted (judged stale): its pending request was discarded and it was left busy"
+			r.tag("stale-delivery")
+			r.ev("   -> request of %s discarded, peer left busy (%s)", s.peer, s.class)
+		case !s.has && !p.Idle && !pend:
+			r.lastEvent[s.peer] = "a packet that arrived with no request pending left it busy"
+			r.ev("   -> %s still busy (%s)", s.peer, s.class)
+		default:
+			r.lastEvent[s.peer] = "packet: " + s.class
+		}
+	}
+	return st, ret, err
+}
+
+func (r *runB) settleRaw() (downloader.VerifLoopState, bool, error) {
 	r.res.settles++
 	var last string
 	stable := 0
 	start := time.Now()
 	for i := 0; ; i++ {
 		if i%4 == 0 {
-			r.dl.WakeBodies(true)
+			r.poke()
 		}
 		time.Sleep(pollEvery)
 		ret, err := r.dl.FetchReturned()
@@ -283,7 +319,11 @@ func (r *runB) settle() (downloader.VerifLoopState, bool, error) {
 		} else {
 			stable, last = 0, fp
 		}
-		if stable >= stablePolls || time.Since(start) > 5*time.Second {
+		need := stablePolls
+		if r.cfg.ticker {
+			need = 650 // more than one period of the loop's ticker
+		}
+		if stable >= need || time.Since(start) > 5*time.Second {
 			return st, ret, err
 		}
 	}
@@ -296,11 +336,12 @@ func (r *runB) send(peer string, lists [][]*types.Transaction, class string) {
 		return
 	}
 	st := r.dl.LoopState()
-	if _, has := st.Pend[peer]; !has {
+	_, has := st.Pend[peer]
+	if !has {
 		class += " with no request pending"
 		r.tag("unsolicited-packet")
 	}
-	r.lastEvent[peer] = "packet: " + class
+	r.lastSend = &sentB{peer: peer, class: class, has: has}
 	r.ev("%s sends %s (%d bodies)", peer, class, len(lists))
 	done := make(chan struct{})
 	go func() { r.dl.DeliverBodies(peer, lists); close(done) }()
@@ -537,21 +578,6 @@ func (r *runB) loop() {
 				continue
 			}
 		}
-		// unhandled requests, lowest block first
-		var next *reqB
-		for _, q := range rs {
-			if q.state == "" && (next == nil || q.nums[0] < next.nums[0]) {
-				next = q
-			}
-		}
-		if next != nil {
-			if next.peer == "P1" {
-				r.handleP1(next)
-			} else {
-				r.handleP2(next)
-			}
-			continue
-		}
 		// answers that were held back until their request expired
 		late := false
 		for _, q := range rs {
@@ -565,6 +591,21 @@ func (r *runB) loop() {
 			}
 		}
 		if late {
+			continue
+		}
+		// unhandled requests, lowest block first
+		var next *reqB
+		for _, q := range rs {
+			if q.state == "" && (next == nil || q.nums[0] < next.nums[0]) {
+				next = q
+			}
+		}
+		if next != nil {
+			if next.peer == "P1" {
+				r.handleP1(next)
+			} else {
+				r.handleP2(next)
+			}
 			continue
 		}
 		if st.Processable > 0 {
@@ -660,7 +701,7 @@ func (r *runB) expireOldest(st downloader.VerifLoopState, rs []*reqB) {
 		}
 	}
 	r.q.SetRequestTime(old.peer, time.Now().Add(-2*time.Hour))
-	r.dl.WakeBodies(true)
+	r.poke()
 }
 
 // checkDrops: the downloader may drop a peer only for a timed-out request of
@@ -699,6 +740,10 @@ func (r *runB) drain() {
 }
 
 func (r *runB) finish(st downloader.VerifLoopState, err error) {
+	// fetchBodies has returned: from here on only the controller changes the peer
+	// set, so read the final state (the snapshot handed in may predate the return)
+	r.checkDrops()
+	st = r.dl.LoopState()
 	if err == nil {
 		r.drain()
 		r.res.outcome = "completed"
@@ -760,8 +805,11 @@ func (r *runB) observeDead(st downloader.VerifLoopState) bool {
 	if r.fullObs {
 		pause = 100 * time.Millisecond // 30 periods of fetchParts' own ticker
 	}
+	if r.cfg.ticker {
+		pause = 100 * time.Millisecond
+	}
 	for i := 0; i < rounds; i++ {
-		r.dl.WakeBodies(true)
+		r.poke()
 		time.Sleep(pause)
 		ret, _ := r.dl.FetchReturned()
 		cur := r.dl.LoopState()
@@ -777,20 +825,40 @@ func (r *runB) observeDead(st downloader.VerifLoopState) bool {
 		return true
 	}
 	r.res.outcome = "stuck"
-	state := "marked busy"
-	if p1.Idle {
-		state = "idle but not given work"
-		if st.Throttled {
-			state = "idle, download throttled with nothing for the importer to take"
-		} else if p1.Lacking > 0 {
-			state = "idle, marked as lacking the blocks"
-		}
-	}
 	what := "bodies queued"
 	if st.Queued == 0 {
 		what = "no body queued"
 	}
-	r.viol(fmt.Sprintf("fetch loop hangs: %s, nothing in flight, designated peer registered and %s; last event for it: %s", what, state, r.lastEvent["P1"]),
+	// peers marked busy although nothing is in flight are the cause (nothing can
+	// ever idle them); idle peers are listed only when there is no such peer
+	benched := false
+	for _, p := range st.Peers {
+		if !p.Idle {
+			benched = true
+		}
+	}
+	var parts []string
+	for _, p := range st.Peers {
+		if benched && p.Idle {
+			continue
+		}
+		role := "designated peer"
+		if p.ID != "P1" {
+			role = "second peer"
+		}
+		switch {
+		case !p.Idle:
+			// busy although nothing is in flight: nothing can ever idle it
+			parts = append(parts, fmt.Sprintf("%s marked busy (last event for it: %s)", role, r.lastEvent[p.ID]))
+		case st.Throttled:
+			parts = append(parts, role+" idle, download throttled with nothing for the importer to take")
+		case p.Lacking > 0:
+			parts = append(parts, role+" idle, marked as lacking blocks")
+		default:
+			parts = append(parts, role+" idle but not given work")
+		}
+	}
+	r.viol(fmt.Sprintf("fetch loop hangs: %s, nothing in flight; %s", what, strings.Join(parts, "; ")),
 		fmt.Sprintf("fetchBodies has not returned; %d body tasks queued, 0 requests in flight, importer holds %d of %d blocks, peers %+v; unchanged over %d wake-ups\n%s",
 			st.Queued, r.got, r.n(), st.Peers, rounds, strings.Join(r.res.events, "\n")))
 	return true
